@@ -2,7 +2,7 @@
    example for the "implicit return" epilogue (a void function whose code ends in RET but can fall through: before the
    compiler fix the machine ran off the end of the function). *)
 From Coq Require Import ZArith NArith List Bool Lia.
-From NV Require Import Lang.Ast Lang.Ref Back.VmCompile Back.VmExec Back.VmSimEnv Back.VmSimDefs Back.VmSimMod Back.VmSimFinal.
+From NV Require Import Lang.Ast Lang.Ref Lang.Types Back.VmCompile Back.VmExec Back.VmSimEnv Back.VmSimDefs Back.VmSimMod Back.VmSimFinal.
 Import ListNotations.
 Local Open Scope N_scope.
 
@@ -85,4 +85,88 @@ Proof.
   exists M. split; [reflexivity|]. split; [vm_compute; reflexivity|]. split.
   - apply (vm_correct ex_fall M 50); [exact E|exact ex_fall_small|unfold fuel_small; lia|vm_compute; reflexivity].
   - vm_compute in E. injection E as <-. vm_compute. reflexivity.
+Qed.
+
+(* arrays: a global array constant, an array parameter and an array result, whole-array assignment to a mutable
+   variable, the empty literal, array_length, at (with a loop index), printing an array *)
+Definition ex_arr : program :=
+  {| pglobals := [(10, TArr, EArr [ENum 5; ENum 6; ENum 7])];
+     pfns := [
+       {| fname := 1; fparams := [(1, TArr); (2, TInt)]; fret := TInt; fbody := SReturn (Some (EAt (EVar 1) (EVar 2))) |};
+       {| fname := 2; fparams := [(3, TInt)]; fret := TArr; fbody := SReturn (Some (EArr [EVar 3; EBin BAdd (EVar 3) (ENum 1)])) |};
+       {| fname := 0; fparams := []; fret := TInt;
+          fbody :=
+            SSeq (SLet true 4 TArr (EArr []))
+            (SSeq (SSet 4 (ECall 2 [ENum 10]))
+            (SSeq (SPrint true (ELen (EVar 4)))
+            (SSeq (SPrint true (EVar 10))
+            (SSeq (SFor 5 (ENum 0) (ELen (EVar 10)) (SPrint true (EAt (EVar 10) (EVar 5))))
+                  (SReturn (Some (ECall 1 [EVar 4; ENum 1]))))))) |} ];
+     pmain := 0 |}.
+
+Example ex_arr_small : small_program ex_arr.
+Proof.
+  split.
+  - unfold source_ok. cbn [pfns pglobals ex_arr]. repeat split.
+    + repeat constructor; cbn; repeat split; reflexivity.
+    + repeat constructor; cbn; repeat split; reflexivity.
+    + repeat constructor. intros [].
+    + unfold VM_MAX_GLOBALS_N. cbn [length map]. lia.
+  - intros M H. vm_compute in H. injection H as <-. unfold module_small. cbn [m_code m_strings m_fns].
+    repeat split; try (vm_compute; reflexivity); try (intro Hc; discriminate Hc).
+    repeat constructor; cbn [fe_locals]; intro Hc; discriminate Hc.
+Qed.
+
+(* "2" "[5, 6, 7]" "5" "6" "7", exit status 11 *)
+Example ex_arr_correct : exists M, compile_program ex_arr = Some M /\
+  run_ref 200 ex_arr = Done [50; 10; 91; 53; 44; 32; 54; 44; 32; 55; 93; 10; 53; 10; 54; 10; 55; 10] 11 /\
+  ((exists fuel', run_vm fuel' M = VDone [50; 10; 91; 53; 44; 32; 54; 44; 32; 55; 93; 10; 53; 10; 54; 10; 55; 10] 11) \/
+   (exists fuel' o, run_vm fuel' M = VError ECallDepth o)) /\
+  run_vm 5000 M = VDone [50; 10; 91; 53; 44; 32; 54; 44; 32; 55; 93; 10; 53; 10; 54; 10; 55; 10] 11.
+Proof.
+  destruct (compile_program ex_arr) as [M|] eqn:E; [|vm_compute in E; discriminate E].
+  exists M. split; [reflexivity|]. split; [vm_compute; reflexivity|]. split.
+  - apply (vm_correct ex_arr M 200); [exact E|exact ex_arr_small|unfold fuel_small; lia|vm_compute; reflexivity].
+  - vm_compute in E. injection E as <-. vm_compute. reflexivity.
+Qed.
+
+(* an index out of range: prints "1", then (at v1 3) on a three-element array stops the run *)
+Definition ex_oob : program :=
+  {| pglobals := [];
+     pfns := [
+       {| fname := 0; fparams := []; fret := TInt;
+          fbody :=
+            SSeq (SLet false 1 TArr (EArr [ENum 1; ENum 2; ENum 3]))
+            (SSeq (SPrint true (EAt (EVar 1) (ENum 0)))
+            (SSeq (SPrint true (EAt (EVar 1) (ENum 3)))
+                  (SReturn (Some (ENum 0))))) |} ];
+     pmain := 0 |}.
+
+Example ex_oob_small : small_program ex_oob.
+Proof.
+  split.
+  - unfold source_ok. cbn [pfns pglobals ex_oob]. repeat split.
+    + repeat constructor; cbn; repeat split; reflexivity.
+    + constructor.
+    + constructor.
+    + unfold VM_MAX_GLOBALS_N. cbn [length]. lia.
+  - intros M H. vm_compute in H. injection H as <-. unfold module_small. cbn [m_code m_strings m_fns].
+    repeat split; try (vm_compute; reflexivity); try (intro Hc; discriminate Hc).
+    repeat constructor; cbn [fe_locals]; intro Hc; discriminate Hc.
+Qed.
+
+Example ex_oob_traps : exists M, compile_program ex_oob = Some M /\
+  run_ref 100 ex_oob = Faulted FOob [49; 10] /\
+  ((exists fuel', run_vm fuel' M = VError EOob [49; 10]) \/ (exists fuel' o, run_vm fuel' M = VError ECallDepth o)) /\
+  run_vm 500 M = VError EOob [49; 10].
+Proof.
+  destruct (compile_program ex_oob) as [M|] eqn:E; [|vm_compute in E; discriminate E].
+  exists M. split; [reflexivity|]. split; [vm_compute; reflexivity|]. split.
+  - apply (vm_correct_oob ex_oob M 100); [exact E|exact ex_oob_small|unfold fuel_small; lia|vm_compute; reflexivity].
+  - vm_compute in E. injection E as <-. vm_compute. reflexivity.
+Qed.
+
+Example ex_arrays_accepted : wt ex_arr = true /\ small_program ex_arr /\ wt ex_oob = true /\ small_program ex_oob.
+Proof.
+  split; [vm_compute; reflexivity|]. split; [exact ex_arr_small|]. split; [vm_compute; reflexivity|exact ex_oob_small].
 Qed.
